@@ -29,6 +29,14 @@ func genYConc(r *Rng, tier string, n int, emit func(Case)) {
 				genC02(r, "quick", 1, func(c Case) { subs = append(subs, map[string]any(c)) })
 			}
 		}
+		// re-match() with patterns that differ between the expressions of one case (plain alphanumeric
+		// patterns: the result is "the subject contains the pattern")
+		if r.Chance(35) {
+			words := []string{"ab", "abc", "bc", "x1", "eth", "eth0", "0", "zz"}
+			for j := 0; j < 2+r.Intn(2); j++ {
+				subs = append(subs, map[string]any{"k": "rm", "s": pick(r, words) + pick(r, words), "p": pick(r, words)})
+			}
+		}
 		emit(Case{"k": "yconc", "subs": subs})
 	}
 }
@@ -40,6 +48,17 @@ type concJob struct {
 }
 
 func subJob(sub map[string]any) concJob {
+	if cstr(sub, "k") == "rm" {
+		run := func(m *xpath.Machine) string {
+			res := xpath.NewCtxFromCurrent(gocontext.Background(), m, &mockEntry{t: &mockTree{hash: true}}).Run()
+			b, err := res.GetBoolResult()
+			if err != nil {
+				return "rm:error"
+			}
+			return fmt.Sprintf("rm:%v", b)
+		}
+		return concJob{"re-match('" + cstr(sub, "s") + "', '" + cstr(sub, "p") + "')", run, func(m *xpath.Machine, k int) { run(m) }}
+	}
 	if cstr(sub, "k") == "c01" {
 		env := carr(sub, "env")
 		return concJob{renderFull(cmap(sub, "e")), func(m *xpath.Machine) string {
@@ -51,8 +70,8 @@ func subJob(sub map[string]any) concJob {
 		}}
 	}
 	b, _ := hex.DecodeString(cstr(sub, "hex"))
-	return concJob{string(b), func(m *xpath.Machine) string { return runPathOnce(m, 0) },
-		func(m *xpath.Machine, k int) { runPathOnce(m, k) }}
+	return concJob{string(b), func(m *xpath.Machine) string { return runPathOnce(m, 0, "") },
+		func(m *xpath.Machine, k int) { runPathOnce(m, k, "") }}
 }
 
 func runYConc(c Case) string {
@@ -65,7 +84,7 @@ func runYConc(c Case) string {
 	for i, j := range jobs {
 		m, err := expr.NewExprMachine(j.text, nil)
 		if err != nil {
-			if cstr(carr(c, "subs")[i].(map[string]any), "k") == "c01" {
+			if k := cstr(carr(c, "subs")[i].(map[string]any), "k"); k == "c01" || k == "rm" {
 				iso[i] = "compile-error:" + firstLine(err.Error())
 			} else {
 				iso[i] = "build:" + canonBuild(j.text, nil, err, false)
